@@ -24,8 +24,8 @@ class Case:
 
 
 class V:
-    def __init__(self, attr=None, disc=None, skipped=False, fields=""):
-        self.attr, self.disc, self.skipped, self.fields = attr, disc, skipped, fields
+    def __init__(self, attr=None, disc=None, skipped=False, fields="", expr=False):
+        self.attr, self.disc, self.skipped, self.fields, self.expr = attr, disc, skipped, fields, expr
 
 
 def rust_discs(vs):
@@ -68,7 +68,11 @@ def enum_text(name, vs):
             a += "#[codec(skip)] "
         if v.attr is not None:
             a += f"#[codec(index = {v.attr})] "
-        d = f" = {v.disc}" if v.disc is not None else ""
+        d = ""
+        if v.disc is not None:
+            # sometimes as a non-literal expression (a literal above 255 is also caught by rustc's own
+            # overflowing-literals lint, which would mask the macro's check)
+            d = f" = {v.disc - 1} + 1" if (v.expr and v.disc > 0) else f" = {v.disc}"
         lines.append(f"\t{a}V{i}{v.fields}{d},")
     lines.append("}")
     return "\n".join(lines)
@@ -91,6 +95,7 @@ def random_enum(r, n_hint=None):
             roll = r.random()
             if roll < 0.3:
                 v.disc = r.choice(pool)
+                v.expr = r.random() < 0.5
             if r.random() < 0.15:
                 v.skipped = True
             vs.append(v)
@@ -134,6 +139,10 @@ def forced_collisions(r):
         out.append(("index too large (attribute)", [V(), V(attr=big)], [V(), V(attr=255)]))
         out.append(("index too large (discriminant)", [V(), V(disc=big)], [V(), V(disc=255)]))
         out.append(("index too large on a skipped variant is fine", [V(), V(attr=big)], [V(), V(attr=big, skipped=True)]))
+        out.append(("index too large (attribute, only variant)", [V(attr=big)], [V(attr=255)]))
+        out.append(("index too large (attribute, only encodable variant)", [V(skipped=True), V(attr=big)], [V(skipped=True), V(attr=254)]))
+        out.append(("index too large (discriminant expression)", [V(), V(disc=big, expr=True)], [V(), V(disc=255, expr=True)]))
+        out.append(("index too large (discriminant expression, only variant)", [V(disc=big, expr=True)], [V(disc=255, expr=True)]))
     return out
 
 
